@@ -218,12 +218,28 @@ class Obligation:
     def formula_for_check(self):
         hy = list(self.hyps)
         if self.expect == 'valid' and not involves_strings(self.goal):
+            hy = [p for h in hy for p in split_conj(h)]
             # relevance filter (sound: dropping hypotheses only weakens what can be proved): a goal without string
             # terms is proved from the string-free hypotheses, which keeps the query out of the string solver
             hy = [h for h in hy if not involves_strings(h)]
         if self.expect == 'valid':
             return hy + [z3.Not(self.goal)]
         return hy + [self.goal]
+
+
+def split_conj(h, depth=0):
+    """split  A and B  /  P => (A and B)  into separate hypotheses (equivalent set), so that the relevance filter can
+    keep the string-free conjuncts of a mixed hypothesis"""
+    if isinstance(h, bool) or depth > 6:
+        return [h]
+    if z3.is_and(h):
+        return [p for c in h.children() for p in split_conj(c, depth + 1)]
+    if z3.is_implies(h):
+        a, b = h.children()
+        parts = split_conj(b, depth + 1)
+        if len(parts) > 1:
+            return [z3.Implies(a, p) for p in parts]
+    return [h]
 
 
 def involves_strings(f) -> bool:
